@@ -28,6 +28,7 @@ type Ref struct {
 	Ends    []int   // end offset of each complete value
 	Feature string  // for Unsupported
 	Offset  int     // offset of the problem
+	Nodes   int     // RefUBJSON: values decoded, including those inside an incomplete container
 }
 
 type refErr struct {
